@@ -193,8 +193,19 @@ def replay(rec):
     ev = rec["event"]
     rep = vlib.Report("C15", "quick")
     gen = model("quick", rep, tag="types_replay")
+    if ev.get("trait") == "translation_unit":
+        # one harmless row; the recorded observation is "the headers do not compile"
+        items = [g for g in gen if g["g"] in ("class", "enum")] + [{"g": "ratio1", "n": 1, "d": 1, "num": 1, "den": 1}]
+        paths, _, _ = build_and_run(items, "quick", "etl", tag="types_replay", k=1)
+        first = json.loads(open(paths[0]).readline())
+        if first.get("trait") != "translation_unit":
+            return []
+        return vlib.tlc_tv("TypesTrace.tla", "TypesTrace.cfg", paths[0], "types_tv_replay", heap="1g")["deviations"]
     items = [g for g in gen if g["g"] in ("class", "enum")] + [item_of_event(ev)]
     paths, _, _ = build_and_run(items, "quick", "etl", tag="types_replay", k=1)
+    first = json.loads(open(paths[0]).readline())
+    if first.get("trait") == "translation_unit":
+        return vlib.tlc_tv("TypesTrace.tla", "TypesTrace.cfg", paths[0], "types_tv_replay", heap="1g")["deviations"]
     keys = ("trait", "t", "u", "n", "d", "n1", "d1", "n2", "d2", "bs", "a", "b")
     sel = [l for l in open(paths[0]) if all(json.loads(l).get(k) == ev.get(k) for k in keys)]
     if not sel:
